@@ -147,6 +147,8 @@ def run(ck):
         sim = ck.tlc("Frame", frame_cfg(10, 4, 3, 1, True, sim=True), "simulate N<=10 G=4 W=3", workers=1, simulate="num=150", depth=10)
         cases += sim.emitted
     replay_cases(ck, cases)
+    from harness import extras2
+    extras2.derived(ck)      # specification growth (refinement tier only): make_derived_metric argument routing
     ck.assumptions += ["equalized_odds_ratio is not compared when one of the two component ratios is undefined (0/0): the property does not fix the combination",
                        "roc_auc / r2 / f1 / balanced accuracy / log_loss variants: equivalence with the MetricFrame call only"]
 
